@@ -168,6 +168,20 @@ example : NoWrap exMint true (exInactive ++ exActive) := ⟨by decide, fun _ => 
 example : (6 : UInt64).toNat + feeOptN exMint true exInactive + feeOptN exMint true exActive < 2 ^ 64 := by decide
 example : stableSorter.OK := stableSorter_ok
 
+/-- Selected proofs are pairwise distinct whenever the holdings are (a sub-multiset of a duplicate-free list). -/
+theorem select_distinct {sel rest holdings : List P} (h : (sel ++ rest).Perm holdings) (hd : holdings.Nodup) :
+    sel.Nodup :=
+  ((h.nodup_iff.2 hd).sublist (List.sublist_append_left sel rest))
+
+example : (exInactive ++ exActive).Nodup := by decide
+
+/-- The iteration bound of the model's loop is immaterial: every fuel above the number of proofs gives the
+    state the unbounded Go loop ends in. -/
+theorem loop_fuel_irrelevant {srt : Sorter} (hs : srt.OK) (m : Mint) (proofs : List P) (amount : UInt64)
+    (inc : Bool) (fuel : Nat) (hf : proofs.length < fuel) :
+    selectLoop srt m amount inc fuel (initSt srt proofs amount) = finalSt srt m proofs amount inc :=
+  selectProofsToSend_fuel hs m proofs amount inc fuel hf
+
 /-! ## send_exact -/
 
 /-- `send_exact_offline`: when `getProofsForAmount` hands over stored proofs, the explicit
